@@ -249,7 +249,7 @@ pub fn main() {
     ));
     ck.assume("the repository is opened with gix::open::Options::isolated() (only the repository-local configuration), git runs with system/global configuration disabled");
 
-    ck.sub("world", SubCfg::new(300, 8_000).max_len(3000).max_shrink(16), |t, c| {
+    ck.sub("world", SubCfg::new(800, 20_000).max_len(3000).max_shrink(16), |t, c| {
         let mut labels = Vec::new();
         let w = gen_world(t, &mut labels);
         for l in labels {
